@@ -115,7 +115,7 @@ func (w *valWorld) endBlockWithPlan(p c14Plan) error {
 
 func TestC14Rapid(t *testing.T) {
 	rec := evid.For("C14")
-	runRapid(t, 1000, 12000, func(rt *rapid.T) {
+	runRapid(t, 1000, 40000, func(rt *rapid.T) {
 		c := rec.Begin()
 		nGen := rapid.IntRange(1, 3).Draw(rt, "genesis")
 		maxVals := uint32(rapid.IntRange(nGen, 5).Draw(rt, "max"))
